@@ -4,6 +4,7 @@
    written (the one place where the flag is set); cell well-formedness is never
    needed. *)
 Require Import Tac ListN Utf8 Width Attrs Cell Row Grid Screen Vte Perform Parser.
+Require Import Chunking.
 Require Import RowInv GridInv TextInv ScreenInv CellWf WfGrid WfVte WfInv.
 Require Export WrapInv.
 Open Scope N_scope.
@@ -335,10 +336,10 @@ Qed.
 (* no hypothesis on the input bytes is needed *)
 Theorem process_wrapinv p bs q : process p bs = Ok q -> parser_ok p -> screen_wrapinv (scr p) -> screen_wrapinv (scr q).
 Proof.
-  unfold process. intros E Hok H.
-  destruct (advance (vt p) bs) as [v acts].
+  rewrite process_unfold. intros E Hok H.
+  destruct (advance (vt p) _) as [v acts].
   binv E as p1 E1. destruct p1 as [s evs]. inv E. cbn [scr].
-  eapply perform_all_wrapinv; eauto.
+  pose proof (parser_ok_scr _ Hok) as Hscr. eapply perform_all_wrapinv; eauto.
 Qed.
 
 Theorem step_wrapinv p o q : step p o = Ok q -> parser_ok p -> screen_wrapinv (scr p) -> screen_wrapinv (scr q).
